@@ -718,6 +718,8 @@ class Interp:
         return self.from_sym(s, attr)
     if isinstance(base, (dict, list, set, frozenset, str, tuple, bytes)):
       return ('method', base, attr)
+    if _is_num(base) and attr in ('astype', 'item', 'flatten', 'copy', 'squeeze'):
+      return ('method', base, attr)
     if isinstance(base, Ext):
       return Ext(f'{base.name}.{attr}')
     return Opaque(f'attr.{attr}')
@@ -811,6 +813,10 @@ class Interp:
       return Opaque('re')
     if fname.startswith('logging.'):
       return None
+    if fname.split('.')[0] in ('np', 'numpy') and args and all(_is_num(a) for a in args):
+      r = _np_scalar(fname.split('.', 1)[1], args)
+      if r is not _NO:
+        return r
     if fname in ('np.array', 'np.asarray', 'numpy.array', 'numpy.asarray') and args and not kwargs:
       if isinstance(args[0], list) and args[0] and all(isinstance(x, (int, float)) and not isinstance(x, bool) for x in args[0]):
         return NpVec(args[0])  # a fresh numeric vector (np.array copies)
@@ -1012,6 +1018,8 @@ class Interp:
         if b == 'sorted':
           return [x for _, x in sorted(keyed, key=lambda kv: kv[0], reverse=bool(kwargs.get('reverse', False)))]
         return (min if b == 'min' else max)(keyed, key=lambda kv: kv[0])[1]
+      if b in ('min', 'max') and len(args) == 1 and isinstance(args[0], (list, tuple)) and not args[0] and 'default' not in kwargs:
+        raise _Raise('ValueError', f'{b}() arg is an empty sequence', node)
       if b in ('min', 'max', 'sum', 'abs', 'int', 'float', 'str', 'bool', 'sorted', 'any', 'all', 'round'):
         return {'min': min, 'max': max, 'sum': sum, 'abs': abs, 'int': int,
                 'float': float, 'str': str, 'bool': bool, 'sorted': sorted,
@@ -1111,6 +1119,8 @@ class Interp:
         return getattr(base, attr)(*args)
       if isinstance(base, NpVec) and attr == 'tolist' and not args:
         return list(base)
+      if _is_num(base) and attr in ('astype', 'item', 'flatten', 'copy', 'squeeze'):
+        return base   # a numpy scalar stays the same number
       if isinstance(base, bytes) and attr in ('decode', 'startswith', 'endswith'):
         return getattr(base, attr)(*args, **kwargs)
     except _Raise:
@@ -1123,6 +1133,53 @@ class Interp:
 
 
 _NO = object()
+
+
+def _is_num(x) -> bool:
+  import fractions  # pylint: disable=g-import-not-at-top
+  return isinstance(x, (int, float, fractions.Fraction)) and not isinstance(x, bool)
+
+
+def _np_scalar(name: str, args):
+  """numpy functions on plain numbers (exact on ints / Fractions)."""
+  import fractions  # pylint: disable=g-import-not-at-top
+  a = args
+  if name == 'maximum' and len(a) == 2:
+    return a[0] if a[0] >= a[1] else a[1]
+  if name == 'minimum' and len(a) == 2:
+    return a[0] if a[0] <= a[1] else a[1]
+  if name in ('abs', 'absolute', 'fabs') and len(a) == 1:
+    return abs(a[0])
+  if name in ('rint', 'round', 'around') and len(a) == 1:
+    return round(a[0]) if not isinstance(a[0], int) else a[0]   # round-half-even, like numpy
+  if name in ('floor', 'ceil') and len(a) == 1:
+    import math  # pylint: disable=g-import-not-at-top
+    return getattr(math, name)(a[0])
+  if name in ('zeros_like',) and len(a) >= 1:
+    return 0
+  if name in ('ones_like',) and len(a) >= 1:
+    return 1
+  if name in ('multiply', 'add', 'subtract', 'divide', 'true_divide') and len(a) == 2:
+    if name == 'multiply':
+      return a[0] * a[1]
+    if name == 'add':
+      return a[0] + a[1]
+    if name == 'subtract':
+      return a[0] - a[1]
+    if a[1] == 0:
+      return _NO
+    if isinstance(a[0], int) and isinstance(a[1], int):
+      return fractions.Fraction(a[0], a[1])
+    return a[0] / a[1]
+  if name == 'clip' and len(a) == 3:
+    return min(max(a[0], a[1]), a[2])
+  if name in ('float64', 'float32', 'float16', 'squeeze', 'asarray', 'array') and len(a) == 1:
+    return a[0]
+  if name in ('any', 'all') and len(a) == 1:
+    return bool(a[0])
+  if name in ('int8', 'int16', 'int32', 'int64') and len(a) == 1 and (isinstance(a[0], int) or a[0] == int(a[0])):
+    return int(a[0])
+  return _NO
 
 
 def _as_load(node):
